@@ -70,6 +70,19 @@ def parse_url(url: str) -> ParsedURL:
     if not parsed.hostname:
         raise ValueError(f"URL missing hostname: {url}")
 
+    # Bring a non-ASCII host name into the form the resolver and the TLS layer
+    # use (IDNA name preparation: "ｅxample.org" is "example.org"), so that the
+    # name a certificate is pinned under is the name that is actually contacted
+    hostname = parsed.hostname
+    if not hostname.isascii():
+        try:
+            prepared = hostname.encode("idna").decode("ascii").lower()
+        except UnicodeError:
+            prepared = ""
+        # Anything else is not a name that can be resolved: left as written
+        if prepared and all(c.isalnum() or c in "-._" for c in prepared):
+            hostname = prepared
+
     # Reject userinfo (per Gemini spec: userinfo portions are forbidden)
     if parsed.username or parsed.password:
         raise ValueError(f"URL must not contain userinfo (user:password): {url}")
@@ -88,7 +101,7 @@ def parse_url(url: str) -> ParsedURL:
     normalized = urlunparse(
         (
             "gemini",  # Always use 'gemini' scheme
-            f"{parsed.hostname}:{port}" if port != DEFAULT_PORT else parsed.hostname,
+            f"{hostname}:{port}" if port != DEFAULT_PORT else hostname,
             path,
             parsed.params,
             parsed.query,
@@ -98,7 +111,7 @@ def parse_url(url: str) -> ParsedURL:
 
     return ParsedURL(
         scheme="gemini",
-        hostname=parsed.hostname,
+        hostname=hostname,
         port=port,
         path=path,
         query=parsed.query or "",
